@@ -113,7 +113,7 @@ package withstack
 // C15: one entry of the printed stack: the function name is the line itself; the file/line pair
 // on the following tab-indented line is split at the LAST colon (file paths may contain colons)
 //@ func parsePrintedStackEntry
-//@   props C15
+//@   props C15 C05
 //@   requires 0 <= i && i < len(lines)
 //@   ensures fnName == lines[i]
 //@   ensures (i < len(lines) - 1 && hasPrefix(lines[i+1], "\t")) ==> newI == i + 1
